@@ -308,6 +308,35 @@ def contReq (st : St) (toks : List String) : St × String :=
       | some (ns, s) => (newWorld st ns s, s!"ok n={ns.length}")
   | _ => (st, "bad-op")
 
+/-- `k:v=>t:e,t:e;k:v=>;...` or `-` -/
+def parseListed (s : String) : Option (List ((Nat × Int) × List (Nat × Nat))) :=
+  if s == "-" then some [] else
+  (s.splitOn ";").mapM fun ent =>
+    match ent.splitOn "=>" with
+    | [kv, es] =>
+      match kv.splitOn ":" with
+      | [k, v] =>
+        match k.toNat?, v.toInt? with
+        | some k, some v =>
+          let edges := if es == "" then some [] else (es.splitOn ",").mapM fun x =>
+            match x.splitOn ":" with
+            | [t, e] => match t.toNat?, e.toNat? with
+              | some t, some e => some (t, e)
+              | _, _ => none
+            | _ => none
+          edges.map fun l => ((k, v), l)
+        | _, _ => none
+      | _ => none
+    | _ => none
+
+def doMacro (st : St) (arg : String) : St × String :=
+  match parseListed arg with
+  | none => (st, "bad-op")
+  | some listed =>
+    match (macroBuild listed : MacroRes Nat Int Nat) with
+    | .panic k => (st, s!"panic {k}")
+    | .ok ns s => (newWorld st ns s, s!"ok n={ns.length}")
+
 def stripVia (line : String) : String :=
   match line.splitOn " #" with
   | h :: _ => h
@@ -345,6 +374,7 @@ def step (st : St) (line : String) : St × String :=
     | _, _ => (st, "bad-op")
   | ["search", kind, dir, root, target, method, mode] => (st, doSearch st kind dir root target method mode)
   | ["order", kind, dir, root, method, mode] => (st, doOrder st kind dir root method mode)
+  | ["macro", arg] => doMacro st arg
   | ["cmp", k1, v1, k2, v2] => match k1.toNat?, v1.toInt?, k2.toNat?, v2.toInt? with
     | some k1, some v1, some k2, some v2 => (st, doCmp k1 v1 k2 v2)
     | _, _, _, _ => (st, "bad-op")
